@@ -175,11 +175,50 @@ def gen_custom_streets(rng, unit):
     return tuple(streets), deck, hts, bs, kind
 
 
+def rule96_table(rng, unit):
+    """Directed table for the short-all-in rule (WSOP 96 / TDA 43): blinds unit/2 and unit, so the
+    minimum raise is to 2*unit by `unit`; the two blinds are short and their all-ins raise by a1 and
+    a2 with a1 + a2 equal to (mostly), one below or one above a full raise; everybody else is deep."""
+    n = rng.randint(4, 6)
+    x = 2 * unit * rng.choice([1, 1, 1, 2])          # the raise the shorts are built around
+    full = x - unit if x == 2 * unit else x - unit   # increment of that raise over the big blind
+    a1 = rng.randint(1, max(1, full - 1))
+    a2 = max(1, full - a1 + rng.choice([0, 0, 0, -1, 1]))
+    stacks = [x + a1, x + a1 + a2] + [rng.randint(40, 120) * unit for _ in range(n - 2)]
+    if rng.random() < 0.3 and n >= 5:                # a third short all-in
+        stacks[2] = stacks[1] + rng.randint(1, unit)
+        stacks = stacks[:2] + stacks[3:] + [stacks[2]]
+    return n, 0, 'none', stacks, 'rule96'
+
+
+def exact_deck_streets(rng, unit):
+    """Directed stud-like game on a small deck, sized so that some street needs exactly (or one more
+    or one fewer than) the cards that are left."""
+    royal, short = Deck.ROYAL_POKER, Deck.SHORT_DECK_HOLDEM
+    deck, n, h0 = rng.choice([(royal, 4, 2), (royal, 4, 3), (royal, 5, 2), (royal, 5, 3),
+                              (short, 6, 2), (short, 6, 3)])
+    n = min(6, max(2, n + rng.choice([0, 0, 0, 0, -1, 1])))
+    cap = rng.choice([None, None, 4])
+    op1 = rng.choice([Opening.LOW_CARD, Opening.HIGH_CARD])
+    opn = rng.choice([Opening.HIGH_HAND, Opening.LOW_HAND])
+    streets = [Street(False, (False,) * (h0 - 1) + (True,), 0, False, op1, unit, cap)]
+    for _ in range(rng.randint(max(3, 5 - h0), 5)):
+        streets.append(Street(rng.random() < 0.8, (rng.random() < 0.8,), 0, False, opn,
+                              unit * rng.choice([1, 2]), cap))
+    hts = (phands.StandardHighHand,) if deck is royal else (phands.ShortDeckHoldemHand,)
+    return tuple(streets), deck, hts, n, 'stud'
+
+
 def gen_config(rng: random.Random, seed_tag: int, force_variant: str | None = None,
                profile: dict | None = None):
     """Returns (kw, extra, meta).  `kw` are State constructor arguments."""
     profile = profile or {}
+    director = profile.get('_director')
     unit = rng.choice([2, 2, 4, 10])
+    if director == 'rule96':
+        force_variant = rng.choice(['NT', 'NT', 'PO'])
+    elif director == 'exact_deck':
+        force_variant = 'custom'
     variant = force_variant or rng.choice(profile['variants'] if profile.get('variants') else
                                           list(VARIANTS) + ([] if profile.get('predefined') else ['custom'] * 2))
     autos, auto_mode = gen_autos(rng)
@@ -199,8 +238,10 @@ def gen_config(rng: random.Random, seed_tag: int, force_variant: str | None = No
     dm = impl.make_divmod(divchunk)
     if variant == 'custom':
         streets, deck, hts, bs, ckind = gen_custom_streets(rng, unit)
-        meta['custom'] = ckind
         n = rng.randint(2, 6)
+        if director == 'exact_deck':
+            streets, deck, hts, n, ckind = exact_deck_streets(rng, unit)
+        meta['custom'] = ckind
         antes, ak = gen_antes(rng, n, unit)
         if ckind == 'stud':
             blinds, bk = 0, 'none'
@@ -228,6 +269,8 @@ def gen_config(rng: random.Random, seed_tag: int, force_variant: str | None = No
             stacks, sk = rng.choice([20, 50, 200]) * unit, 'equal'
         if profile.get('no_antes') and rng.random() < profile['no_antes']:
             antes, ak = 0, 'none'
+        if director == 'rule96':
+            n, antes, ak, stacks, sk = rule96_table(rng, unit)
         common = dict(mode=mode, starting_board_count=boards, divmod=dm, rake=rake_f)
         if variant in STUD:
             bring_in = rng.choice([1, max(1, unit // 2)])
@@ -240,6 +283,8 @@ def gen_config(rng: random.Random, seed_tag: int, force_variant: str | None = No
             game = cls(autos, trim, antes, blinds, unit, 2 * unit, **common)
         else:
             blinds, bk = gen_blinds(rng, n, unit)
+            if director == 'rule96':
+                blinds, bk = (max(1, unit // 2), unit), 'std'
             game = cls(autos, trim, antes, blinds, unit, **common)
         kw = dict(automations=game.automations, deck=game.deck, hand_types=game.hand_types,
                   streets=game.streets, betting_structure=game.betting_structure,
@@ -248,6 +293,8 @@ def gen_config(rng: random.Random, seed_tag: int, force_variant: str | None = No
                   raw_starting_stacks=stacks, player_count=n, mode=game.mode,
                   starting_board_count=game.starting_board_count, divmod=game.divmod, rake=game.rake)
     meta.update({'n': n, 'antes': ak, 'blinds': bk, 'stacks': sk})
+    if director:
+        meta['director'] = director
     meta['deck_ok'] = deck_suffices(kw)
     vinfo = None
     if variant != 'custom':
@@ -351,6 +398,18 @@ def valid_ops(rng: random.Random, s: State, tune: dict) -> list[tuple[str, float
             if mx > mn:
                 out.append((f'cbr {rng.randint(mn, mx)}', w * 0.3))
                 out.append((f'cbr {min(mx, mn + rng.randint(0, max(1, mn)))}', w * 0.3))
+    if tune.get('director') == 'rule96' and s.actor_indices and s.street_index == 0:
+        a = s.actor_index
+        short = s.stacks[a] + s.bets[a] <= tune.get('short_cap', 0)
+        want = None
+        if short:
+            want = 'cbr ' + str(s.stacks[a] + s.bets[a]) if s.can_complete_bet_or_raise_to() else 'call'
+        elif s.completion_betting_or_raising_count == 0:
+            want = 'cbr -'
+        elif not any(s.consecutive_all_in_completion_betting_or_raising_amounts):
+            want = 'call'
+        if want is not None:
+            out.append((want, 40.0))
     if s.can_select_runout_count():
         for c in ('-', '1', '2', '2', '3'):
             out.append((f'runout {c} -', 1))
